@@ -33,7 +33,9 @@ from pyanalyze.value import (
 from vf.common import Atom, Rel, get_checker, ref_accepts
 
 T = TypeVar("T")
+U = TypeVar("U")
 K = ParameterKind
+TVU = TypeVarValue(U)
 
 
 class Box:
@@ -54,6 +56,12 @@ def ann_value(ann, atoms, tv) -> Value:
         return CallableValue(Signature.make([SigParameter("x", K.POSITIONAL_ONLY, annotation=tv)], KnownValue(None)))
     if k == "retT":  # Callable[[], T]
         return CallableValue(Signature.make([], tv))
+    if k == "U":
+        return TVU
+    if k == "cbTU":  # Callable[[T], U]
+        return CallableValue(Signature.make([SigParameter("x", K.POSITIONAL_ONLY, annotation=tv)], TVU))
+    if k == "dictTU":  # dict[T, U]
+        return GenericValue(dict, [tv, TVU])
     raise AssertionError(ann)
 
 
@@ -76,6 +84,12 @@ def arg_value(ann, arg, atoms) -> Value:
         return CallableValue(Signature.make([SigParameter("x", K.POSITIONAL_ONLY, annotation=base(arg))], KnownValue(None)))
     if k == "retT":
         return CallableValue(Signature.make([], base(arg)))
+    if k == "U":
+        return base(arg)
+    if k == "cbTU":  # arg = (param atom, return atom)
+        return CallableValue(Signature.make([SigParameter("x", K.POSITIONAL_ONLY, annotation=base(arg[0]))], base(arg[1])))
+    if k == "dictTU":  # arg = (key atom, value atom)
+        return GenericValue(dict, [base(arg[0]), base(arg[1])])
     raise AssertionError(ann)
 
 
@@ -141,3 +155,21 @@ def bounds_of(params, args, atoms):
         elif ann[0] == "cbT":
             ups.append(v)
     return lows, ups
+
+
+def bounds_of2(params, args, atoms):
+    """reference bounds for the two-variable signatures: {var: (lower bounds, upper bounds)}"""
+    out = {"T": ([], []), "U": ([], [])}
+    for (nm, ann, dflt), a in zip(params, args):
+        k = ann[0]
+        if k == "T":
+            out["T"][0].append(atoms[a])
+        elif k == "U":
+            out["U"][0].append(atoms[a])
+        elif k == "cbTU":
+            out["T"][1].append(atoms[a[0]])
+            out["U"][0].append(atoms[a[1]])
+        elif k == "dictTU":
+            out["T"][0].append(atoms[a[0]])
+            out["U"][0].append(atoms[a[1]])
+    return out
